@@ -7,6 +7,7 @@ import (
 
 	"github.com/hknutzen/Netspoc-Approve/go/pkg/mytime"
 	"github.com/hknutzen/Netspoc-Approve/go/pkg/program"
+	"github.com/hknutzen/Netspoc-Approve/go/pkg/verifhook"
 )
 
 type action struct {
@@ -59,6 +60,8 @@ func write(cfg *program.Config, device string, v status) {
 	os.Mkdir(statusDir, 0755)
 	fname := path.Join(statusDir, device)
 	data, _ := json.Marshal(v)
+	verifhook.Point("status:before-write")
+	defer verifhook.Point("status:after-write")
 	if err := os.WriteFile(fname, data, 0644); err != nil {
 		panic(err)
 	}
